@@ -1,7 +1,7 @@
 """C10 - gzip compression of an image file is transparent.
 Gzip.tla: TLC checks the nested inflate loop of img_gzfile.cc over an abstract zlib (termination under fairness,
-rejection of truncated/corrupt streams, complete output) for every member structure, truncation point and corrupted
-unit within the constants; Identify.tla's candidate list shows name hints do not depend on the .gz suffix.  A corpus of
+rejection of truncated/corrupt streams, complete output of every member) for every member structure, truncation point and
+corrupted unit within the constants; Identify.tla's candidate list shows name hints do not depend on the .gz suffix.  A corpus of
 images of every container type (incl. those whose geometry depends on the name hints) is compressed at several levels
 with padded headers (sizes around multiples of the 512/1024-byte buffers) and every command is compared between X and
 X.gz; every truncation and single-bit corruption of a small .gz must be rejected or harmless; TraceGzip.tla judges."""
@@ -151,12 +151,10 @@ def run(chk, tier, seed):
                 "(image, variant, command) / (damage position)")
     chk.assumptions = ["zlib itself is abstracted to its contract in Gzip.tla", "a corrupted header field that gzip ignores may leave the output identical"]
     r = common.tlc("Gzip", "Gzip_small.cfg" if quick else "Gzip_thorough.cfg", timeout=3000)
-    chk.add_tlc("Gzip (single-member requirement, termination)", r)
+    chk.add_tlc("Gzip (all members, truncation at and between member boundaries, termination)", r)
     if r.violated:
         chk.violation("model:" + r.violated, "Gzip.tla: inflate-loop model violates %s\n%s" % (r.violated, "\n".join(r.cex[:40])), dict(spec="Gzip.tla"))
-    r2 = common.tlc("Gzip", "Gzip_all.cfg")
-    chk.add_tlc("Gzip (all-members requirement: prediction)", r2)
-    chk.extra["all_members_model_prediction"] = r2.violated or "holds"
+    # (until the repair of b96ff1e the model stopped at the first member and Gzip_all.cfg was the prediction of that defect)
     events = []
     with common.Scratch("c10") as scratch:
         items = corpus(scratch, rnd)
